@@ -66,6 +66,8 @@ type Op struct {
 	Site  string // innermost marketstore function
 	Note  string
 	Trunc bool // OpCreate on existing file with O_TRUNC
+	Time  int64 // virtual clock when logged
+	Chain string // up to three innermost marketstore functions, "a<b<c"
 }
 
 func (o *Op) Mutating() bool {
@@ -217,9 +219,15 @@ func (f *FS) guardOK(p string) bool {
 }
 
 func site() string {
-	var pcs [24]uintptr
+	a, _ := siteChain()
+	return a
+}
+
+func siteChain() (string, string) {
+	var pcs [32]uintptr
 	n := runtime.Callers(3, pcs[:])
 	frames := runtime.CallersFrames(pcs[:n])
+	var fns []string
 	for {
 		fr, more := frames.Next()
 		fn := fr.Function
@@ -227,13 +235,19 @@ func site() string {
 			if i := strings.LastIndex(fn, "/"); i >= 0 {
 				fn = fn[i+1:]
 			}
-			return fn
+			fns = append(fns, fn)
+			if len(fns) == 3 {
+				break
+			}
 		}
 		if !more {
 			break
 		}
 	}
-	return "harness"
+	if len(fns) == 0 {
+		return "harness", "harness"
+	}
+	return fns[0], strings.Join(fns, "<")
 }
 
 func (f *FS) log(op *Op) {
@@ -242,8 +256,9 @@ func (f *FS) log(op *Op) {
 	}
 	op.Seq = len(f.Log)
 	op.Task = simrt.CurTaskID()
+	op.Time = simrt.NowNanos()
 	if op.Site == "" {
-		op.Site = site()
+		op.Site, op.Chain = siteChain()
 	}
 	f.Log = append(f.Log, op)
 }
